@@ -226,7 +226,10 @@ impl KnowledgeGraphSnapshot {
         program: &str,
     ) -> Result<(Vec<Tuple>, HashMap<String, Vec<Tuple>>), String> {
         use crate::execution::TimingMode;
-        self.execute_with_rules_tuples_profiled_full(program, TimingMode::Off)
+        // The backward chainer looks derived relations up by their own names. The
+        // magic-sets rewrite of a bound recursive query evaluates adorned copies
+        // instead, which would leave the chainer to re-derive every sub-goal.
+        self.run_with_rules(program, TimingMode::Off, false)
             .map(|(tuples, derived, _timing)| (tuples, derived))
     }
 
@@ -257,6 +260,22 @@ impl KnowledgeGraphSnapshot {
         ),
         String,
     > {
+        self.run_with_rules(program, timing_mode, true)
+    }
+
+    fn run_with_rules(
+        &self,
+        program: &str,
+        timing_mode: crate::execution::TimingMode,
+        magic_sets: bool,
+    ) -> Result<
+        (
+            Vec<Tuple>,
+            HashMap<String, Vec<Tuple>>,
+            Option<crate::execution::TimingBreakdown>,
+        ),
+        String,
+    > {
         let start = Instant::now();
         let combined = if self.rule_prefix.is_empty() {
             program.to_string()
@@ -269,6 +288,11 @@ impl KnowledgeGraphSnapshot {
         engine.set_max_result_rows(self.max_result_rows);
         engine.set_max_query_cost(self.max_query_cost);
         engine.set_timing_mode(timing_mode);
+        if !magic_sets {
+            let mut config = engine.config().clone();
+            config.enable_magic_sets = false;
+            engine.set_config(config);
+        }
         self.configure_hnsw(&mut engine);
 
         // Use shared input for zero-copy
